@@ -5,8 +5,8 @@ import Pkgcore.Proofs.C34
 Property theorems only (helper lemmas: `Pkgcore/Proofs/C34.lean`).  `mainRun`, `processScope`, the
 `walk*` functions mirror `pkgcore.ebuild.filter_env` (after the `fix:` commits); `Spec.removeRegions`
 is "the input minus these index regions".  `data` is the text handed to `main_run`; the model appends the
-NUL sentinel as `main_run` does.  The theorems speak about every run that returns (`= .ok …`); the other
-two outcomes of the model are `Err.index` (an uncaught `IndexError` of the Python code) and `Err.fuel`.
+NUL sentinel as `main_run` does.  The theorems speak about every run that returns (`= .ok …`); `fuel_suffices` shows the only other
+outcome is `Err.index` (an uncaught `IndexError` of the Python code).
 -/
 namespace Pkgcore.C34
 open Pkgcore.C34.Spec
@@ -56,6 +56,22 @@ theorem statements_selected_by_name (data : List Char) (vm fm : Option (List Cha
     (r : ScopeResult) (hno : '\x00' ∉ data) (h : mainRun data vm fm = .ok (out, r)) :
     ∀ st ∈ r.stmts, st.filtered = applyMatch (if st.isFunc then fm else vm) st.name ∧ st.start ≤ st.stop :=
   (mainRun_final data vm fm out r hno h).2.2
+
+/-- **the scanner terminates**: with the fuel `mainRun` uses (`6·len + 16`; one unit per call and per loop
+iteration) no walker ever runs out — every loop iteration of every function moves at least one character
+forward, which for the comment walks depends on the NUL sentinel `main_run` appends.  So a run either
+returns or stops with an uncaught `IndexError`; it never spins (the empty here-document word used to) -/
+theorem fuel_suffices (data : List Char) (vm fm : Option (List Char → Bool)) :
+    mainRun data vm fm ≠ .error .fuel ∧
+    ((∃ out r, mainRun data vm fm = .ok (out, r)) ∨ mainRun data vm fm = .error .index) := by
+  have h := mainRun_nofuel data vm fm
+  refine ⟨h, ?_⟩
+  cases hm : mainRun data vm fm with
+  | ok x => left; exact ⟨x.1, x.2, rfl⟩
+  | error e =>
+    cases e with
+    | index => right; rfl
+    | fuel => exact absurd hm h
 
 /-- the generated `str.isspace` / `str.isalnum` tables, on ASCII: blanks are 9–13 and 28–32, alphanumerics
 are the digits and letters -/
